@@ -257,7 +257,11 @@ func (w *walker) walk(data []byte) *Info {
 			info.HasXMP, info.XMP = true, c.Payload
 			stage = max(stage, 5)
 		default:
-			// unknown chunks are allowed anywhere after VP8X
+			// unknown chunks are allowed after VP8X, except between ALPH and its VP8 chunk
+			// (image data = ALPH? bitstream, contiguous)
+			if pendingAlpha && !haveStill {
+				w.bad("alph-image-interrupted", "chunk %q between ALPH and the image chunk", c.ID)
+			}
 		}
 	}
 	if pendingAlpha && !haveStill {
